@@ -311,7 +311,7 @@ impl SodiumCtx {
 
     // Runs the closures queued for the end of the transaction, including those queued meanwhile
     // (a switch built by the mapping function that another switch's closure forces).
-    fn run_pre_eot(&self) {
+    pub fn run_pre_eot(&self) {
         loop {
             let pre_eot = self.with_data(|data: &mut SodiumCtxData| {
                 let mut pre_eot: Vec<Box<dyn FnMut() + Send>> = Vec::new();
